@@ -161,7 +161,7 @@ func stReplay(raw json.RawMessage, idx int, tr *traceWriter) {
 		"loc": loc, "written": written && !(nextRan && !writtenAtNext), "next_ran": nextRan, "panicked": panicked, "status": w.Code})
 }
 
-var stHostile = []string{"f", "d", "e", "g", "index", "pfx", "pfxx", "secret", "..", ".", "", "...", "%2e%2e", "..\\secret", "\x00", "f\x00", "d\x00",
+var stHostile = []string{"f", "d", "e", "g", "index", "pfx", "pfxx", "pfxf", "pfxd", "pfxe", "pfx.", "secret", "..", ".", "", "...", "%2e%2e", "..\\secret", "\x00", "f\x00", "d\x00",
 	"..;", "F", "root", "~", "..%2f", "f ", " f", "\xff", "index.htm", strings.Repeat("a", 300), "..\\..\\secret", "secret\x00.txt"}
 
 func stGen(seed int64, n int, args []string, out *json.Encoder) {
